@@ -763,3 +763,753 @@ def _stream_index(ctx, workers):
         ctx.count("idx.load.errors", (m, hs_), True, r.split(" ")[0])
         if o != r:
             ctx.disagree("idx.load.errors", {"idx": hx(m)[:80], "len": len(m), "hs": hs_}, o, r)
+
+
+# ------------------------------------------------------------------------------------------------
+# stream 3: PackStreamReader._read trailer tracking under arbitrary chunking
+
+def real_trailer(hs: int, chunks):
+    import dulwich.pack as P
+    it = iter(chunks)
+    r = P.PackStreamReader(rechash(hs), lambda n: next(it), lambda n: next(it))
+    for _ in chunks:
+        r._read(r.read_all, 1 << 20)
+    return bytes(r.sha.buf), bytes(bytearray(r._trailer))
+
+
+def gen_chunking(rng, hs: int):
+    total = rng.choice([0, 1, hs - 1, hs, hs + 1, 2 * hs - 1, 2 * hs, 2 * hs + 1, rng.randint(0, 150)])
+    data = rng.randbytes(total)
+    style = rng.choice(["bytes", "small", "around-hs", "mixed", "one", "with-empty"])
+    chunks, i = [], 0
+    while i < len(data):
+        if style == "bytes":
+            k = 1
+        elif style == "small":
+            k = rng.randint(1, 3)
+        elif style == "around-hs":
+            k = rng.choice([hs - 1, hs, hs + 1])
+        elif style == "one":
+            k = len(data)
+        else:
+            k = rng.choice([1, 2, hs - 1, hs, hs + 1, 2 * hs, 50])
+        chunks.append(data[i:i + k])
+        i += k
+        if style == "with-empty" and rng.random() < 0.3:
+            chunks.append(b"")
+    if style == "with-empty" and rng.random() < 0.5:
+        chunks.insert(0, b"")
+    return style, data, chunks
+
+
+def trailer_case(ctx, stream, hs, data, chunks, model_out=None):
+    case = {"kind": "trailer", "hs": hs, "chunks": [hx(c) for c in chunks]}
+    hashed, trailer = real_trailer(hs, chunks)
+    # property's words: hash covers everything but the last hs bytes, the trailer is exactly those bytes
+    cut = max(len(data) - hs, 0)
+    if hashed != data[:cut] or trailer != data[cut:]:
+        ctx.oracle_fail(stream, case, f"after feeding {len(chunks)} chunks ({len(data)} bytes) the reader hashed {len(hashed)} bytes and holds a "
+                        f"{len(trailer)}-byte trailer; want {cut} hashed and the last {len(data) - cut} bytes as trailer")
+    if model_out is not None and model_out != f"{hx(hashed)} {hx(trailer)}":
+        ctx.disagree(stream, case, model_out[:200], f"{hx(hashed)} {hx(trailer)}"[:200])
+
+
+def _stream_trailer(ctx):
+    rng = ctx.rng
+    cases = []
+    for _ in range(ctx.budget(300)):
+        hs = rng.choice([20, 20, 32])
+        style, data, chunks = gen_chunking(rng, hs)
+        cases.append((hs, style, data, chunks))
+    # exhaustive: every composition of a 2-, hs-1..hs+2-byte total into chunks of size <= 3 is too many; take all
+    # two-chunk splits of totals around hs instead
+    for hs in (20, 32):
+        for total in (hs - 1, hs, hs + 1, 2 * hs):
+            data = bytes(range(1, total + 1))
+            for cut in range(total + 1):
+                cases.append((hs, "two-split", data, [data[:cut], data[cut:]]))
+    outs = ctx.driver.batch([f"c02.trailer {hs}" + "".join(" " + hx(c) for c in chunks) if chunks else f"c02.trailer {hs}"
+                             for hs, _, _, chunks in cases])
+    for (hs, style, data, chunks), o in zip(cases, outs):
+        ctx.count("trailer", (hs, tuple(chunks)), True, f"hs{hs}:{style}:{'short' if len(data) < hs else 'long'}")
+        trailer_case(ctx, "trailer", hs, data, chunks, o)
+
+
+# ------------------------------------------------------------------------------------------------
+# stream 4: whole packs
+
+def gen_objects(rng, big_ok=True):
+    """A list of (type_num, content).  Sizes straddle the 4-bit/7-bit header groups and the 64 KiB copy limit;
+    families of similar blobs make the deltifier produce chains; valid trees/commits/tags so Pack.check() applies."""
+    n = rng.choice([0, 1, 1, 2, 3, 5, 8, 13, 21, 40])
+    objs = []
+    sizes = [0, 1, 15, 16, 17, 127, 128, 129, 2047, 2048, 2049, 300, 1000]
+    fam_base = rng.randbytes(rng.choice([40, 200, 2050])) if rng.random() < 0.8 else b"line\n" * 300
+    while len(objs) < n:
+        k = rng.random()
+        if k < 0.45:
+            # family member: edit of the family base (deltifiable)
+            b = bytearray(fam_base)
+            for _ in range(rng.randint(0, 3)):
+                p = rng.randrange(len(b) + 1)
+                b[p:p] = rng.randbytes(rng.choice([1, 5, 130]))
+            if rng.random() < 0.5:
+                fam_base = bytes(b)      # chains: the next member derives from this one
+            objs.append((3, bytes(b)))
+        elif k < 0.75:
+            sz = rng.choice(sizes)
+            objs.append((3, rng.randbytes(sz) if rng.random() < 0.6 else bytes(rng.choice(b"ab\n") for _ in range(sz))))
+        elif k < 0.80 and big_ok:
+            sz = rng.choice([65535, 65536, 65537])
+            body = (rng.randbytes(64) * (sz // 64 + 1))[:sz]
+            objs.append((3, body))
+            if rng.random() < 0.7:
+                objs.append((3, body[: rng.choice([65535, 65536, sz])] + rng.randbytes(rng.choice([0, 1, 20]))))
+        elif k < 0.85:
+            objs.append((3, b""))
+        elif k < 0.9 and objs:
+            objs.append(rng.choice(objs))                      # duplicated content (same object again)
+        else:
+            objs.append(_structured_object(rng, objs))
+    return objs
+
+
+def _structured_object(rng, objs):
+    """A syntactically valid tree / commit / tag."""
+    blob_ids = [obj_name(t, d) for t, d in objs if t == 3] or [obj_name(3, b"")]
+    kind = rng.choice([1, 2, 2, 4])
+    if kind == 2:
+        names = sorted({b"f%d" % rng.randrange(100) for _ in range(rng.randint(0, 6))})
+        return 2, b"".join(b"100644 " + nm + b"\0" + rng.choice(blob_ids) for nm in names)
+    tree = obj_name(2, b"").hex().encode()
+    who = b"A U Thor <a@example.com> %d +0000" % rng.randrange(10 ** 9)
+    if kind == 1:
+        return 1, b"tree " + tree + b"\nauthor " + who + b"\ncommitter " + who + b"\n\nmessage %d\n" % rng.randrange(1000) * rng.randint(1, 20)
+    return 4, b"object " + tree + b"\ntype tree\ntag v%d\ntagger " % rng.randrange(100) + who + b"\n\ntag message\n"
+
+
+def gen_pack_opts(rng):
+    return {
+        "path": rng.choice(["objects", "objects", "records", "records", "reuse", "reuse-comp"]),
+        "deltify": rng.random() < 0.6,
+        "window": rng.choice([None, 0, 1, 10]),
+        "level": rng.choice([-1, -1, 0, 1, 6, 9]),
+        "version": rng.choice([1, 2, 2, 3]),
+        "cache": rng.choice([None, None, 1, 300]),
+        "sub": rng.randrange(1 << 30),
+        "chunked": rng.random() < 0.3,
+    }
+
+
+def _shafile(ty, data):
+    from dulwich.objects import ShaFile
+    return ShaFile.from_raw_string(ty, data)
+
+
+def build_records(objs, opts, scratch: Path):
+    """The UnpackedObject list handed to write_pack_data, produced by the real code path named in opts."""
+    import random
+    import dulwich.pack as P
+    from dulwich.object_format import SHA1
+    sub = random.Random(opts["sub"])
+    sf = [_shafile(t, d) for t, d in objs]
+    path = opts["path"]
+    if path == "objects":
+        _, it = P.pack_objects_to_data(sf, deltify=opts["deltify"], delta_window_size=opts["window"])
+        return list(it)
+    if path == "records":
+        # hand-made delta forest in an arbitrary pack order (bases may come after their deltas => REF_DELTA)
+        uniq = list({obj_name(t, d): (t, d) for t, d in objs}.items())
+        rank = list(range(len(uniq)))
+        sub.shuffle(rank)
+        recs = []
+        for i, (nm, (t, d)) in enumerate(uniq):
+            cands = [j for j in range(len(uniq)) if rank[j] < rank[i] and uniq[j][1][0] == t and len(uniq[j][1][1]) > 0]
+            if cands and len(d) > 0 and opts["deltify"] and sub.random() < 0.7:
+                j = sub.choice(cands)
+                delta = b"".join(P.create_delta(uniq[j][1][1], d))
+                recs.append(P.UnpackedObject(t, sha=nm, delta_base=uniq[j][0], decomp_chunks=[delta]))
+            else:
+                chunks = [d]
+                if opts["chunked"] and len(d) > 2:
+                    c = sub.randrange(1, len(d))
+                    chunks = [d[:c], b"", d[c:]]
+                recs.append(P.UnpackedObject(t, sha=nm, decomp_chunks=chunks))
+        sub.shuffle(recs)
+        # duplicates of the input list are written as duplicate records, like write_pack_objects would
+        for t, d in objs[len(uniq):][:0]:
+            pass
+        return recs
+    # reuse: a deltified pack inside a disk object store, then generate_unpacked_objects(reuse_deltas=True)
+    from dulwich.object_store import DiskObjectStore
+    sd = scratch / f"store-{opts['sub']}"
+    (sd / "pack").mkdir(parents=True, exist_ok=True)
+    (sd / "info").mkdir(exist_ok=True)
+    uniq = list({o.id: o for o in sf}.values())
+    base = str(sd / "pack" / "pack-src")
+    with open(base + ".pack", "wb") as f:
+        entries, cs = P.write_pack_objects(f.write, uniq, object_format=SHA1, deltify=True)
+    with open(base + ".idx", "wb") as f:
+        P.write_pack_index(f, sorted((k, v[0], v[1]) for k, v in entries.items()), cs)
+    if path == "reuse-comp":
+        src = P.Pack(base, object_format=SHA1)
+        try:
+            return list(src.iter_unpacked_subset([o.id for o in uniq], include_comp=True, convert_ofs_delta=True))
+        finally:
+            src.close()
+    store = DiskObjectStore(str(sd))
+    try:
+        ids = [(o.id, None) for o in sf]
+        return list(P.generate_unpacked_objects(store, ids, reuse_deltas=True, deltify=opts["deltify"],
+                                                delta_window_size=opts["window"]))
+    finally:
+        store.close()
+
+
+def expected_mapping(objs):
+    return {obj_name(t, d): (t, d) for t, d in objs}
+
+
+def _fail(ctx, stream, case, what, cls=None):
+    ctx.oracle_fail(stream, case, what, cls)
+    return False
+
+
+def pack_case(ctx, stream, objs, opts, workers=None, model=True, git=False):
+    """One object set x option vector through the real writer, the real readers, the model and (sampled) C git."""
+    import binascii
+    import hashlib
+    import io
+    import warnings
+    import dulwich.pack as P
+    from dulwich.object_format import SHA1
+    rng = ctx.rng
+    case = {"kind": "pack", "opts": opts, "objs": [[t, hx(d)] for t, d in objs]}
+    want = expected_mapping(objs)
+    has_dups = len(want) != len(objs)
+    tag = f"{opts['path']}:{'delta' if opts['deltify'] else 'full'}:v{opts['version']}:n{min(len(objs), 9)}{'+' if len(objs) > 9 else ''}"
+    ctx.count(stream, (tuple(objs), tuple(sorted(opts.items(), key=str))), True, tag)
+    # ---------------- write with the real code
+    try:
+        recs = build_records(objs, opts, ctx.scratch)
+        buf = io.BytesIO()
+        entries, cs = P.write_pack_data(buf.write, iter(recs), num_records=len(recs), compression_level=opts["level"],
+                                        object_format=SHA1)
+        pack = buf.getvalue()
+        ies = sorted((k, v[0], v[1]) for k, v in entries.items())
+        ibuf = io.BytesIO()
+        P.write_pack_index(ibuf, ies, cs, version=opts["version"])
+        idxb = ibuf.getvalue()
+    except Exception as e:
+        return _fail(ctx, stream, case, f"writing the pack/index failed: {type(e).__name__}: {e}")
+    kinds = {"full": 0, "ofs": 0, "ref": 0}
+    comp_reused = any(r.comp_chunks is not None for r in recs)
+    dup_recs = len({bytes(r.sha()) for r in recs}) != len(recs)
+    if opts["path"] == "objects":
+        # the public entry point must give the same bytes as the two steps it is made of
+        b2 = io.BytesIO()
+        try:
+            P.write_pack_objects(b2.write, [_shafile(t, d) for t, d in objs], object_format=SHA1, deltify=opts["deltify"],
+                                 delta_window_size=opts["window"], compression_level=opts["level"])
+            if opts["window"] is None and b2.getvalue() != pack:
+                ctx.disagree(stream + ".entrypoints", case, "write_pack_objects bytes", "pack_objects_to_data + write_pack_data bytes")
+        except Exception as e:
+            return _fail(ctx, stream, case, f"write_pack_objects failed: {type(e).__name__}: {e}")
+    # ---------------- internal consistency, straight from the bytes
+    ok = True
+    if hashlib.sha1(pack[:-20]).digest() != pack[-20:] or cs != pack[-20:]:
+        ok = _fail(ctx, stream, case, "pack trailer is not the SHA-1 of the preceding bytes / not the returned checksum")
+    offs = sorted(v[0] for v in entries.values())
+    if not dup_recs:
+        for nm, (off, crc) in entries.items():
+            nxt = min([o for o in offs if o > off] + [len(pack) - 20])
+            if binascii.crc32(pack[off:nxt]) & 0xFFFFFFFF != crc:
+                ok = _fail(ctx, stream, case, f"CRC-32 recorded for {nm.hex()} is not the CRC of pack[{off}:{nxt}]")
+                break
+    # ---------------- read back with the real code
+    base = str(ctx.scratch / f"p{ctx.evaluations}")
+    Path(base + ".pack").write_bytes(pack)
+    Path(base + ".idx").write_bytes(idxb)
+    phantom = phantom_name(opts["version"], 20, len(ies), idxb)
+    absent = [a for a in (rng.randbytes(20), phantom, b"\xff" * 20) if a not in want]
+    cls = None
+    if comp_reused:
+        cls = "records-with-comp-chunks"
+    elif has_dups or dup_recs:
+        cls = "duplicate-input-objects"
+    names = list(want)
+    order = names * 2
+    rng.shuffle(order)
+    got_raw = {}
+    abs_raw = {}
+    with warnings.catch_warnings():
+        warnings.simplefilter("ignore")
+        kw = {"delta_base_cache_limit": opts["cache"]} if opts["cache"] else {}
+        p = P.Pack(base, object_format=SHA1, **kw)
+        try:
+            try:
+                n_idx = len(p)
+                # random access, every object twice in random order (cache must not leak another object's data)
+                for nm in order:
+                    ty, data = p.get_raw(nm)
+                    got_raw[nm] = (ty, data)
+                    if (ty, data) != want[nm]:
+                        ok = _fail(ctx, stream, case, f"random access to {nm.hex()} gives type {ty}, {len(data)} bytes; wrote type {want[nm][0]}, {len(want[nm][1])} bytes", cls)
+                        break
+                for nm in names[:5]:
+                    o = p[nm.hex().encode()]
+                    if (o.type_num, o.as_raw_string()) != want[nm] or (nm.hex().encode() in p) is not True:
+                        ok = _fail(ctx, stream, case, f"Pack[...] / `in` disagree with what was written for {nm.hex()}", cls)
+                if n_idx != len(want):
+                    ok = _fail(ctx, stream, case, f"index has {n_idx} entries for {len(want)} distinct objects", cls)
+                for a in absent:
+                    found = a in p
+                    try:
+                        ty, data = p.get_raw(a)
+                        abs_raw[a] = f"ok:{ty}:{hx(data)}"
+                    except Exception as e:
+                        abs_raw[a] = real_err(e)
+                    if found:
+                        ok = _fail(ctx, stream + ".absent", dict(case, probe=hx(a)),
+                                   f"`name in pack` is True for {a.hex()}, which was never written",
+                                   "phantom-name-after-table" if a == phantom else cls)
+                # sequential iteration
+                seq = {}
+                cnt = 0
+                for o in p.iterobjects():
+                    seq[bytes.fromhex(o.id.decode())] = (o.type_num, o.as_raw_string())
+                    cnt += 1
+                if seq != want or cnt != len(recs):
+                    ok = _fail(ctx, stream, case, f"iterobjects() yields {cnt} objects / {len(seq)} names; wrote {len(recs)} records for {len(want)} objects "
+                               f"(missing {len(set(want) - set(seq))}, extra {len(set(seq) - set(want))}, differing {sum(1 for k in seq if k in want and seq[k] != want[k])})", cls)
+                p.check()
+                # index entries vs entries recomputed from the pack data (offsets, per-object CRCs)
+                re_ = [(bytes(a), b, c) for a, b, c in p.data.sorted_entries()]
+                ie = [(bytes(a), b, c) for a, b, c in p.index.iterentries()]
+                if opts["version"] == 1:
+                    re_ = [(a, b, None) for a, b, c in re_]
+                if re_ != ie or [(a, b) for a, b, _ in ie] != [(a, b) for a, b, _ in ies]:
+                    ok = _fail(ctx, stream, case, "index entries (name, offset, crc) differ from the entries recomputed from the pack data", cls)
+                for u in p.data.iter_unpacked():
+                    kinds["ofs" if u.pack_type_num == 6 else "ref" if u.pack_type_num == 7 else "full"] += 1
+            except Exception as e:
+                ok = _fail(ctx, stream, case, f"reading back what dulwich wrote failed: {type(e).__name__}: {str(e)[:150]}", cls)
+        finally:
+            p.close()
+    d = ctx.hist.setdefault(stream + ".entry-kinds", {})
+    for k, v in kinds.items():
+        d[k] = d.get(k, 0) + v
+    if not ok or cls is not None:
+        return ok
+    # ---------------- streaming reader under a random chunking of the same bytes
+    try:
+        f = io.BytesIO(pack)
+        k = rng.choice([1, 2, 7, 19, 20, 21, 64, 4096])
+        rd = P.PackStreamReader(hashlib.sha1, f.read, lambda n: f.read(max(1, min(n, rng.randint(1, k)))))
+        so = [(u.offset, u.crc32) for u in rd.read_objects(compute_crc32=True)]
+        if sorted(so) != sorted((v[0], v[1]) for v in entries.values()):
+            ok = _fail(ctx, stream + ".stream", dict(case, chunk=k), "PackStreamReader offsets/CRCs differ from the writer's entries")
+    except Exception as e:
+        ok = _fail(ctx, stream + ".stream", dict(case, chunk=k), f"PackStreamReader fails on a pack dulwich wrote (recv chunks <= {k}): {type(e).__name__}: {str(e)[:100]}")
+    # ---------------- pure-Python variant (Python bisect / apply_delta)
+    if workers and "py" in workers and names:
+        some = rng.sample(names, min(6, len(names))) + absent[:1]
+        rep = workers["py"].ask({"mod": MOD, "op": "pack_getraw", "args": {"base": base, "names": [hx(x) for x in some]}}, timeout=120)
+        exp = [f"ok:{want[x][0]}:{hx(want[x][1])}" if x in want else "err:key" for x in some]
+        if rep.get("r") != exp:
+            bad = [(hx(x), str(a)[:60]) for x, a, b in zip(some, rep.get("r") or [str(rep)] * len(some), exp) if a != b]
+            c2 = "phantom-name-after-table" if bad and bad[0][0] == hx(phantom) and len(bad) == 1 else None
+            ok = _fail(ctx, stream + ".py", dict(case, probes=bad[:3]), f"pure-Python random access differs from what was written: {bad[:2]}", c2)
+    # ---------------- model
+    if model:
+        _pack_model(ctx, stream, case, recs, opts, pack, entries, idxb, names, absent, got_raw, abs_raw)
+    if git:
+        _git_reads_dulwich(ctx, stream + ".git", case, base, pack, idxb, opts, want, ies)
+    for ext in (".pack", ".idx"):
+        try:
+            Path(base + ext).unlink()
+        except OSError:
+            pass
+    return ok
+
+
+def _pack_model(ctx, stream, case, recs, opts, pack, entries, idxb, names, absent, got_raw, abs_raw):
+    import binascii
+    import dulwich.pack as P
+    from dulwich.object_format import SHA1
+    import hashlib
+    lines = []
+    # writer: same records, zlib output supplied per record
+    args = []
+    for r in recs:
+        data = b"".join(r.decomp_chunks)
+        comp = compress_chunks(r.decomp_chunks, opts["level"])
+        args.append(f"{hx(bytes(r.sha()))}:{r.pack_type_num}:{hx(r.delta_base) if r.delta_base is not None else '-'}:{hx(data)}:{hx(comp)}")
+    lines.append("c02.packwrite" + "".join(" " + a for a in args))
+    zt = ztable(pack)
+    lines.append(f"c02.packparse 20 {hx(pack)} {ztable_arg(zt)}")
+    probe = names + absent
+    lines.append(f"c02.getraw 20 {hx(pack)} {ztable_arg(zt)} {hx(idxb)}" + "".join(" " + hx(x) for x in probe))
+    w, pp, gr = ctx.driver.batch(lines)
+    wt = w.split(" ")
+    body = unhx(wt[0])
+    if body + hashlib.sha1(body).digest() != pack:
+        ctx.disagree(stream + ".write.model", case, f"{len(body) + 20} bytes: {hx(body)[:120]}…", f"{len(pack)} bytes: {hx(pack)[:120]}…")
+    else:
+        me = {}
+        for t in wt[1:]:
+            nm, off, ln = t.split(":")
+            me[unhx(nm)] = (int(off), binascii.crc32(body[int(off):int(off) + int(ln)]) & 0xFFFFFFFF)
+        if me != {bytes(k): v for k, v in entries.items()}:
+            ctx.disagree(stream + ".write.model", case, "entries " + str(sorted(me.values()))[:150], "entries " + str(sorted(entries.values()))[:150])
+    # sequential parse
+    import io
+    real = ["ok"]
+    try:
+        pd = P.PackData("mem.pack", SHA1, file=io.BytesIO(pack))
+        try:
+            for u in pd.iter_unpacked():
+                b = u.delta_base
+                bs = "-" if b is None else (f"o{b}" if isinstance(b, int) else "r" + hx(bytes(b)))
+                real.append(f"{u.offset}:{u.pack_type_num}:{bs}:{hx(b''.join(u.decomp_chunks))}")
+        finally:
+            pd.close()
+        real = " ".join(real)
+    except Exception as e:
+        real = real_err(e)
+    if pp != real:
+        ctx.disagree(stream + ".parse.model", case, pp[:200], real[:200])
+    exp = [f"ok:{got_raw[x][0]}:{hx(got_raw[x][1])}" if x in got_raw else abs_raw.get(x, "err:key") for x in probe]
+    if gr.split(" ") != exp:
+        bad = [(hx(x), a[:60], b[:60]) for x, a, b in zip(probe, gr.split(" "), exp) if a != b]
+        ctx.disagree(stream + ".getraw.model", dict(case, probes=[b[0] for b in bad[:3]]), [b[1] for b in bad[:3]], [b[2] for b in bad[:3]])
+
+
+# ------------------------------------------------------------------------------------------------
+# C git as third party
+
+GIT_TYPES = {b"commit": 1, b"tree": 2, b"blob": 3, b"tag": 4}
+
+
+def _git(args, cwd, inp=None, timeout=120):
+    import subprocess
+    p = subprocess.run(["git"] + args, cwd=cwd, input=inp, stdout=subprocess.PIPE, stderr=subprocess.PIPE,
+                       env=core.clean_env(), timeout=timeout)
+    return p.returncode, p.stdout, p.stderr
+
+
+def _batch_all(repo: Path):
+    """{name: (type_num, content)} of every object git sees in the repository."""
+    rc, out, err = _git(["cat-file", "--batch", "--batch-all-objects", "--unordered"], repo)
+    if rc != 0:
+        return None, err.decode(errors="replace")
+    got, i = {}, 0
+    while i < len(out):
+        j = out.index(b"\n", i)
+        nm, ty, sz = out[i:j].split(b" ")
+        sz = int(sz)
+        got[bytes.fromhex(nm.decode())] = (GIT_TYPES[ty], out[j + 1:j + 1 + sz])
+        i = j + 1 + sz + 1
+    return got, ""
+
+
+def _git_reads_dulwich(ctx, stream, case, base, pack, idxb, opts, want, ies):
+    """`git index-pack --strict` accepts the pack and builds the same index; `git verify-pack -v` and
+    `git cat-file --batch-all-objects` on dulwich's pack + dulwich's index give back the same mapping."""
+    import shutil
+    gd = ctx.scratch / f"git-{ctx.evaluations}"
+    rc, _, err = _git(["init", "-q", "--bare", str(gd)], ctx.scratch)
+    if rc != 0:
+        raise core.InfraError("git init failed: " + err.decode(errors="replace"))
+    pk = gd / "objects" / "pack"
+    pk.mkdir(parents=True, exist_ok=True)
+    name = "pack-" + pack[-20:].hex()
+    (pk / (name + ".pack")).write_bytes(pack)
+    ctx.count(stream, (pack, opts["version"]), True, f"v{opts['version']}")
+    try:
+        rc, out, err = _git(["index-pack", "--strict", "-o", str(gd / "git.idx"), str(pk / (name + ".pack"))], gd)
+        if rc != 0:
+            # --strict also checks object syntax and connectivity of the objects *in* the pack; blobs named by our
+            # synthetic trees need not be present, which git reports differently ("did not receive expected object")
+            msg = err.decode(errors="replace")
+            if "fsck" in msg or "missing" in msg.lower() or "did not receive" in msg:
+                rc, out, err = _git(["index-pack", "-o", str(gd / "git.idx"), str(pk / (name + ".pack"))], gd)
+                ctx.hist.setdefault(stream, {})
+                ctx.hist[stream]["strict-relaxed(connectivity)"] = ctx.hist[stream].get("strict-relaxed(connectivity)", 0) + 1
+        if rc != 0:
+            ctx.oracle_fail(stream, case, f"git index-pack rejects a pack dulwich wrote: {err.decode(errors='replace')[:200]}")
+            return
+        gidx = (gd / "git.idx").read_bytes()
+        if opts["version"] == 2 and gidx != idxb:
+            ctx.oracle_fail(stream, case, "the v2 index dulwich wrote differs from the index git index-pack builds for the same pack")
+        # dulwich's own index next to the pack (git 2.39 reads v1 and v2)
+        (pk / (name + ".idx")).write_bytes(idxb if opts["version"] in (1, 2) else gidx)
+        rc, out, err = _git(["verify-pack", "-v", str(pk / (name + ".idx"))], gd)
+        if rc != 0:
+            ctx.oracle_fail(stream, case, f"git verify-pack fails on dulwich's pack + index: {err.decode(errors='replace')[:200]}")
+            return
+        listing = {}
+        for ln in out.split(b"\n"):
+            f = ln.split()
+            if len(f) >= 5 and len(f[0]) == 40 and f[1] in GIT_TYPES:
+                listing[bytes.fromhex(f[0].decode())] = (GIT_TYPES[f[1]], int(f[2]), int(f[4]))
+        exp = {nm: (want[nm][0], len(want[nm][1]), off) for nm, off, _ in ies}
+        if {k: (v[0], v[2]) for k, v in listing.items()} != {k: (v[0], v[2]) for k, v in exp.items()}:
+            ctx.oracle_fail(stream, case, f"git verify-pack lists different (name, type, offset) than dulwich's index: {len(listing)} vs {len(exp)} objects")
+        got, err = _batch_all(gd)
+        if got is None:
+            ctx.oracle_fail(stream, case, f"git cat-file fails on dulwich's pack + index: {err[:200]}")
+        elif got != want:
+            ctx.oracle_fail(stream, case, f"git reads a different mapping from dulwich's pack + index ({len(got)} objects, wrote {len(want)})")
+    finally:
+        shutil.rmtree(gd, ignore_errors=True)
+
+
+def gen_git_history(rng, depth_bias=True):
+    """Objects for `git pack-objects`: long families of similar blobs so that chains approach --depth."""
+    objs = []
+    nfam = rng.choice([1, 1, 2])
+    for _ in range(nfam):
+        body = [rng.randbytes(30).hex().encode() + b"\n" for _ in range(rng.choice([20, 60]))]
+        for _ in range(rng.choice([5, 30, 60, 75])):
+            p = rng.randrange(len(body) + 1)
+            body[p:p] = [rng.randbytes(20).hex().encode() + b"\n"]
+            objs.append((3, b"".join(body)))
+    for sz in rng.sample([0, 15, 16, 127, 128, 2047, 2048, 65535, 65536], 3):
+        objs.append((3, (rng.randbytes(50) * (sz // 50 + 1))[:sz]))
+    for _ in range(3):
+        objs.append(_structured_object(rng, objs))
+    return objs
+
+
+def git_pack_case(ctx, stream, objs, gopts):
+    """dulwich reads what `git pack-objects` writes (deep chains, OFS or REF deltas)."""
+    import shutil
+    import warnings
+    import dulwich.pack as P
+    from dulwich.object_format import SHA1
+    case = {"kind": "gitpack", "gopts": gopts, "objs": [[t, hx(d)] for t, d in objs]}
+    want = expected_mapping(objs)
+    gd = ctx.scratch / f"gitw-{ctx.evaluations}"
+    rc, _, err = _git(["init", "-q", "--bare", str(gd)], ctx.scratch)
+    if rc != 0:
+        raise core.InfraError("git init failed: " + err.decode(errors="replace"))
+    try:
+        for nm, (t, d) in want.items():
+            rc, out, err = _git(["hash-object", "-w", "--stdin", "-t", TYPE_NAMES[t].decode(), "--literally"], gd, inp=d)
+            if rc != 0 or out.strip().decode() != nm.hex():
+                raise core.InfraError(f"git hash-object: {rc} {out!r} {err!r} (want {nm.hex()})")
+        args = ["pack-objects", "-q", f"--depth={gopts['depth']}", f"--window={gopts['window']}"]
+        if gopts["ofs"]:
+            args.append("--delta-base-offset")
+        if gopts.get("idxv"):
+            args.append(f"--index-version={gopts['idxv']}")
+        rc, out, err = _git(args + [str(gd / "out")], gd, inp=b"".join(n.hex().encode() + b"\n" for n in want))
+        if rc != 0:
+            raise core.InfraError("git pack-objects failed: " + err.decode(errors="replace"))
+        base = str(gd / ("out-" + out.strip().decode()))
+        rc, vout, _ = _git(["verify-pack", "-v", base + ".idx"], gd)
+        maxdepth = 0
+        for ln in vout.split(b"\n"):
+            f = ln.split()
+            if len(f) == 7 and len(f[0]) == 40:
+                maxdepth = max(maxdepth, int(f[5]))
+        ctx.count(stream, (tuple(objs), tuple(sorted(gopts.items()))), True,
+                  f"{'ofs' if gopts['ofs'] else 'ref'}:idxv{gopts.get('idxv') or 2}:chain{'0' if maxdepth == 0 else '1-9' if maxdepth < 10 else '10-29' if maxdepth < 30 else '30-49' if maxdepth < 50 else '50'}")
+        with warnings.catch_warnings():
+            warnings.simplefilter("ignore")
+            p = P.Pack(base, object_format=SHA1)
+            try:
+                names = list(want)
+                ctx.rng.shuffle(names)
+                for nm in names:
+                    ty, data = p.get_raw(nm)
+                    if (ty, data) != want[nm]:
+                        ctx.oracle_fail(stream, case, f"dulwich random access to {nm.hex()} in a git-written pack gives type {ty}, {len(data)} bytes; git stored type {want[nm][0]}, {len(want[nm][1])} bytes")
+                        return
+                seq = {bytes.fromhex(o.id.decode()): (o.type_num, o.as_raw_string()) for o in p.iterobjects()}
+                if seq != want:
+                    ctx.oracle_fail(stream, case, "dulwich iterobjects() on a git-written pack gives a different mapping")
+                p.check()
+                ie = [(bytes(a), b, c) for a, b, c in p.index.iterentries()]
+                re_ = [(bytes(a), b, c) for a, b, c in p.data.sorted_entries()]
+                if gopts.get("idxv") == 1:
+                    re_ = [(a, b, None) for a, b, c in re_]
+                if ie != re_:
+                    ctx.oracle_fail(stream, case, "entries dulwich recomputes from a git-written pack differ from git's index")
+                # and the index dulwich would write for git's pack is git's index
+                if (gopts.get("idxv") or 2) == 2:
+                    import io
+                    b = io.BytesIO()
+                    P.write_pack_index_v2(b, re_, p.data.get_stored_checksum())
+                    if b.getvalue() != Path(base + ".idx").read_bytes():
+                        ctx.oracle_fail(stream, case, "write_pack_index_v2 for a git-written pack differs from git's own .idx")
+            except Exception as e:
+                ctx.oracle_fail(stream, case, f"dulwich fails on a pack git wrote: {type(e).__name__}: {str(e)[:150]}")
+            finally:
+                p.close()
+    finally:
+        shutil.rmtree(gd, ignore_errors=True)
+
+
+def _stream_packs(ctx, workers):
+    rng = ctx.rng
+    n = ctx.budget(60)
+    ngit = ctx.budget(10, mult=6)
+    for i in range(n):
+        objs = gen_objects(rng, big_ok=(i % 4 == 0))
+        opts = gen_pack_opts(rng)
+        pack_case(ctx, "pack", objs, opts, workers=workers, model=True, git=(i < ngit or ctx.thorough and i % 3 == 0))
+    # fixed corner cases
+    fixed = [([], "objects"), ([(3, b"")], "objects"), ([(3, b"a" * 16), (3, b"a" * 15)], "objects"),
+             ([(3, b"x" * 65536), (3, b"x" * 65535 + b"y")], "records"), ([(2, b"")], "objects")]
+    for objs, path in fixed:
+        for v in (1, 2, 3):
+            opts = {"path": path, "deltify": True, "window": None, "level": -1, "version": v, "cache": None, "sub": 1, "chunked": False}
+            pack_case(ctx, "pack", objs, opts, workers=workers, model=True, git=(v == 2))
+    for i in range(ctx.budget(5, mult=6)):
+        objs = gen_git_history(rng)
+        gopts = {"depth": rng.choice([50, 50, 10, 1]), "window": rng.choice([10, 10, 50]), "ofs": rng.random() < 0.5,
+                 "idxv": rng.choice([None, None, 1])}
+        git_pack_case(ctx, "gitpack", objs, gopts)
+
+
+# ------------------------------------------------------------------------------------------------
+# corpus, run, search, replay
+
+def _run_corpus(ctx, workers):
+    import json
+    d = core.VERIF / "corpus" / "C02"
+    if not d.exists():
+        return
+    for f in sorted(d.glob("*.json")):
+        c = json.loads(f.read_text())
+        _dispatch(ctx, "corpus." + f.stem, c.get("case", c), workers, model=True)
+
+
+def _dispatch(ctx, stream, c, workers, model=False):
+    kind = c.get("kind")
+    if kind == "codec":
+        codec_oracle(ctx, stream, c["codec"], c.get("ty", 3), c["n"], unhx(c.get("tail", "-")))
+        ctx.count(stream, repr(c), True)
+    elif kind == "idx":
+        es = [(unhx(a), b, d) for a, b, d in c["entries"]]
+        idx_case(ctx, stream, c["version"], c["hs"], es, unhx(c["cs"]), c.get("fmt", 1), workers=workers, model=model)
+    elif kind == "trailer":
+        chunks = [unhx(x) for x in c["chunks"]]
+        out = None
+        if model:
+            (out,) = ctx.driver.batch([f"c02.trailer {c['hs']}" + "".join(" " + hx(x) for x in chunks)])
+        ctx.count(stream, repr(c), True)
+        trailer_case(ctx, stream, c["hs"], b"".join(chunks), chunks, out)
+    elif kind == "pack":
+        pack_case(ctx, stream, [(t, unhx(d)) for t, d in c["objs"]], c["opts"], workers=workers, model=model, git=True)
+    elif kind == "gitpack":
+        git_pack_case(ctx, stream, [(t, unhx(d)) for t, d in c["objs"]], c["gopts"])
+    else:
+        raise core.InfraError(f"unknown case kind {kind!r}")
+
+
+def run(ctx: core.Ctx):
+    workers = {"py": core.Worker("py", mem_mb=2048)}
+    ctx.assumptions += [
+        "zlib (deflate/inflate) is a parameter of the theorems; in the correspondence it is Python's zlib, supplied to the "
+        "model as a table computed by scanning every pack offset with zlib.decompressobj (no dulwich parsing involved)",
+        "SHA-1/SHA-256 trailers and CRC-32 are parameters; the harness completes model-written files with hashlib and "
+        "checks the CRC of the model's byte ranges with binascii.crc32",
+        "bisect_find_sha: the model is the Python version (checked in a child with the extension masked); the installed "
+        "Rust version is run on the same probes (its equivalence is C15's business)",
+        "DeltaChainIterator (iterobjects) is exercised by the direct oracle only; the model covers sequential entry "
+        "parsing and random-access resolution",
+        "C git 2.39.5: index v3 is dulwich-only and not offered to git; --thin packs are not generated",
+    ]
+    try:
+        w = workers["py"].ask({"mod": MOD, "op": "which"})
+        ctx.extra_cov["variants"] = {"py": w.get("r"), "default": impl_which(None)}
+        if "r" in w and "_pack" in str(w["r"].get("bisect")):
+            ctx.notes.append(f"py worker did not mask the Rust bisect: {w}")
+        _run_corpus(ctx, workers)
+        _stream_codecs(ctx)
+        _stream_trailer(ctx)
+        _stream_index(ctx, workers)
+        _stream_packs(ctx, workers)
+    finally:
+        for v in workers.values():
+            v.close()
+
+
+def search(ctx: core.Ctx):
+    """Failing-input search after a broken obligation / disagreement: the direct oracles alone, harder."""
+    import dulwich.pack as P
+    rng = ctx.rng
+    workers = {"py": core.Worker("py", mem_mb=2048)}
+    try:
+        # 1. the disagreeing cases themselves and their neighbourhood
+        for dgr in list(ctx.disagreements)[:20]:
+            c = dgr["case"]
+            if c.get("kind") in ("idx", "trailer", "pack", "gitpack", "codec"):
+                _dispatch(ctx, "search." + dgr["stream"], c, workers, model=False)
+            if "size" in c and "ty" in c and isinstance(c["ty"], int) and c["ty"] in (1, 2, 3, 4):
+                for dlt in range(-2, 3):
+                    codec_oracle(ctx, "search.hdr", "hdr", c["ty"], max(0, c["size"] + dlt), b"\x80x")
+            if "n" in c and isinstance(c["n"], int):
+                for dlt in range(-2, 3):
+                    codec_oracle(ctx, "search.ofs", "ofs", 6, max(1, c["n"] + dlt), b"\x80x")
+        if ctx.oracle_failures:
+            return
+        # 2. exhaustive small ranges of the codecs on the real code
+        for n in list(range(0, 70000)) + [rng.getrandbits(40) for _ in range(2000)]:
+            codec_oracle(ctx, "search.hdr", "hdr", 1 + n % 4, n, b"\xff")
+            if n:
+                codec_oracle(ctx, "search.ofs", "ofs", 6, n, b"\xff")
+            if ctx.oracle_failures:
+                return
+        # 3. trailer tracking, index and packs with a boosted budget (oracle only)
+        for _ in range(ctx.budget(600)):
+            hs = rng.choice([20, 32])
+            _, data, chunks = gen_chunking(rng, hs)
+            trailer_case(ctx, "search.trailer", hs, data, chunks)
+        if ctx.oracle_failures:
+            return
+        for i in range(ctx.budget(150)):
+            version = rng.choice([1, 2, 2, 3])
+            hs = 32 if (version == 2 and rng.random() < 0.3) else 20
+            _, es = gen_entries(rng, version, hs)
+            idx_case(ctx, "search.idx", version, hs, es, rng.randbytes(hs), workers=workers, model=False)
+            if len(ctx.oracle_failures) > 3:
+                return
+        if ctx.oracle_failures:
+            return
+        for i in range(ctx.budget(80)):
+            pack_case(ctx, "search.pack", gen_objects(rng, big_ok=(i % 5 == 0)), gen_pack_opts(rng), workers=workers, model=False, git=(i % 4 == 0))
+            if ctx.oracle_failures:
+                return
+        for i in range(ctx.budget(6)):
+            git_pack_case(ctx, "search.gitpack", gen_git_history(rng), {"depth": 50, "window": 10, "ofs": bool(i % 2), "idxv": None})
+            if ctx.oracle_failures:
+                return
+    finally:
+        for v in workers.values():
+            v.close()
+
+
+def replay(ctx: core.Ctx, data: dict) -> int:
+    c = data.get("case", {})
+    workers = {"py": core.Worker("py", mem_mb=2048)}
+    try:
+        if "kind" not in c:
+            print("replay: this file names a broken obligation, not a failing input:", data.get("no_longer_checks"))
+            return 1
+        _dispatch(ctx, data.get("stream", "replay"), c, workers, model=False)
+        for f in ctx.oracle_failures:
+            print("replay:", f["what"])
+        if ctx.known_hit:
+            print("replay: matched known finding(s)", ctx.known_hit)
+        if ctx.oracle_failures:
+            print(f"VIOLATION property=C02 replay={data.get('_path', '<replayed>')}")
+            return 1
+        print("replay: property holds on this case")
+        return 0
+    finally:
+        for v in workers.values():
+            v.close()
